@@ -127,6 +127,10 @@ func (packet *Packet) GetBindParameters(paramNum int) ([]base.BoundValue, error)
 		// 7 + num-params offset from docs
 		// For COM_STMT_EXECUTE this offset is 0
 		nullBitMapLength := (paramNum + 7) / 8
+		// NULL-bitmap and new_params_bind_flag must lie inside the packet
+		if len(packet.data) < pos+nullBitMapLength+1 {
+			return nil, base_mysql.ErrMalformPacket
+		}
 		if nullBitMapLength > 0 {
 			nullBitmap = packet.data[pos : pos+nullBitMapLength]
 		}
@@ -141,6 +145,11 @@ func (packet *Packet) GetBindParameters(paramNum int) ([]base.BoundValue, error)
 		return values, nil
 	}
 	pos += +1
+
+	// two bytes (type, unsigned flag) per parameter must lie inside the packet
+	if len(packet.data)-pos < 2*paramNum {
+		return nil, base_mysql.ErrMalformPacket
+	}
 
 	//here we need to gather all provided param types
 	paramTypes := make([]byte, paramNum)
